@@ -146,4 +146,8 @@ class Block2Cache:
                 req.remote.maximum_payload_size,
             )
         else:
+            # The response is complete and supersedes whatever representation
+            # was kept for this block key: later blocks must not be served from
+            # an older rendering.
+            self._completes.pop(block_key, None)
             return assembled
